@@ -1,8 +1,6 @@
 package cache
 
 import (
-	"sync"
-
 	"github.com/MichaelMure/git-bug/entity"
 	"github.com/MichaelMure/git-bug/entity/dag"
 	"github.com/MichaelMure/git-bug/repository"
@@ -17,7 +15,7 @@ type CachedEntityBase[SnapT dag.Snapshot, OpT dag.Operation] struct {
 	entityUpdated   func(id entity.Id) error
 	getUserIdentity getUserIdentityFunc
 
-	mu     sync.RWMutex
+	mu     rwMutex
 	entity dag.Interface[SnapT, OpT]
 }
 
